@@ -21,8 +21,10 @@ GAMMAS = [1e-9, 1.0]   # gamma must be > 0; 1e-9 = exploration bonus practically
 CTX = spaces.Box(-1e10, 1e10, (3,), np.float32)
 
 
-def z_scripts(n, tier):
-    if n <= 2 or tier == "thorough":
+def z_scripts(n, tier, full=False):
+    """normal answers per arm. full Z^n for n<=2 (quick) / n<=3 (thorough); otherwise const -10/0/10 and the two ramps.
+    thorough n=4 additionally runs the full Z^4 on the reduced output set (see run)"""
+    if full or n <= 2 or (tier == "thorough" and n <= 3):
         return [list(z) for z in itertools.product(cm.Z, repeat=n)]
     s = [[z] * n for z in cm.Z]
     s.append([cm.Z[i % 3] for i in range(n)])
@@ -45,8 +47,8 @@ def tasks(tier):
     for algo in ALGOS:
         for n in arms(algo, tier):
             nz = len(z_scripts(n, tier)) if algo == "NeuralTS" else 1
-            cost = (5 ** n) * (2 ** n) * (1 + nz) * 0.01
-            k = max(1, min(5 ** n, int(cost // 25) + 1))
+            cost = (5 ** n) * (2 ** n) * ((1 + nz) if algo == "NeuralTS" else 2) * 0.0025   # ~seconds
+            k = max(1, min(5 ** n, int(cost // 6) + 1))
             for c in range(k):
                 out.append({"algo": algo, "n": n, "mode": "W", "chunk": [c, k], "_cost": cost / k})
             out.append({"algo": algo, "n": n, "mode": "S", "_cost": 10})
@@ -192,6 +194,13 @@ def run(task, p):
                             execute(p, cfg, algo, n, "vec", gamma, vs[vi], None, m, z, True)
                     else:
                         execute(p, cfg, algo, n, "vec", gamma, vs[vi], None, m, None, True)
+        if algo == "NeuralTS" and tier == "thorough" and n == 4:
+            red = cm.reduced_bias_vectors(n).tolist()
+            zfull = z_scripts(n, tier, full=True)
+            for vi2 in range(c, len(red), k):
+                for m in masks:
+                    for z in zfull:
+                        execute(p, cfg, algo, n, "vec", 1.0, red[vi2], None, m, z, True)
         p.sample({"algo": algo, "arms": n, "mode": "W", "chunk": [c, k], "last_outputs": vs[vi], "z_scripts": len(zs) if algo == "NeuralTS" else 0})
         return
     for kind in cm.OBS_KINDS:
